@@ -38,6 +38,7 @@ import (
 	"github.com/dfklegend/cell2/apimapper/apientry"
 	"github.com/dfklegend/cell2/node/client/impls"
 	cs "github.com/dfklegend/cell2/node/client/session"
+	"github.com/dfklegend/cell2/node/cluster"
 	"github.com/dfklegend/cell2/node/service"
 
 	"cell2verif/hx"
@@ -272,6 +273,25 @@ func (w *world) dropRec(q int) {
 	w.mu.Lock()
 	delete(w.recs, q)
 	w.mu.Unlock()
+}
+
+var svcTypes = map[string]string{"gate-1": "gate", "gate-2": "gate", "chat-1": "chat", "chat-2": "chat"}
+
+const fullTopology = "gate-1:1,gate-2:1,chat-1:1,chat-2:1"
+
+func (w *world) setTopology(spec string) {
+	var ms []*cluster.Member
+	for _, e := range strings.Split(spec, ",") {
+		p := strings.SplitN(e, ":", 2)
+		ty, ok := svcTypes[p[0]]
+		if !ok || len(p) != 2 {
+			continue
+		}
+		st, _ := strconv.Atoi(p[1])
+		ms = append(ms, &cluster.Member{Id: "c@n-" + p[0], Host: "h", Port: 1, State: st, Services: []string{ty + "." + p[0]}})
+	}
+	w.n.SetTopology(ms)
+	w.n.Wait()
 }
 
 // ordinal of a real connection id of a front in the current case
@@ -586,6 +606,7 @@ func exec(op string) string {
 			w.base[f] = w.total[f] + 1
 			w.nOpen[f] = 0
 		}
+		w.setTopology(fullTopology)
 		w.handles = map[string]*handle{}
 		w.pfronts = map[string]*cs.FrontSession{}
 		w.mu.Lock()
@@ -706,6 +727,12 @@ func exec(op string) string {
 		})
 		n.Wait()
 		return "r=" + r.render()
+
+	case "topo":
+		// Cluster.UpdateClusterTopology: one member per listed service, published with the given node
+		// state (0 Init, 1 Working, 2 Retiring, 3 Retired); services not listed are not in the view
+		w.setTopology(kv("m"))
+		return "ok"
 
 	case "snap":
 		var parts []string
@@ -974,6 +1001,30 @@ func (g *gen) script(front bool, canKeep bool) string {
 	return strings.Join(ops, ";")
 }
 
+// topology draws a cluster view: every service usually a member, in a random node state
+// (the fronts mostly NOT Working); now and then a service is missing
+func (g *gen) topology() string {
+	r := g.h.R
+	if r.Intn(4) == 0 {
+		g.h.Count("topo.full-working")
+		return fullTopology
+	}
+	var parts []string
+	for _, s := range []string{"gate-1", "gate-2", "chat-1", "chat-2"} {
+		if r.Intn(9) == 0 {
+			g.h.Count("topo.away." + svcTypes[s])
+			continue
+		}
+		st := r.Intn(4)
+		if svcTypes[s] == "chat" && r.Intn(2) == 0 {
+			st = 1
+		}
+		g.h.Count(fmt.Sprintf("topo.state%d.%s", st, svcTypes[s]))
+		parts = append(parts, fmt.Sprintf("%s:%d", s, st))
+	}
+	return strings.Join(parts, ",")
+}
+
 func (g *gen) pickConn(liveBias bool) (string, int) {
 	r := g.h.R
 	f := frontNames[0]
@@ -1026,6 +1077,15 @@ func (g *gen) caseOps(nops int) []string {
 		}
 	}
 	for i := 0; i < nops; i++ {
+		if r.Intn(16) == 0 { // the cluster view changes: node states of the members, sometimes a service leaves
+			g.h.Count("op.topo")
+			ops = append(ops, "topo m="+g.topology())
+			// a back-end that still holds a session of some connection queries / pushes right away
+			if len(g.handles) > 0 && r.Intn(3) > 0 {
+				ops = append(ops, fmt.Sprintf("on h=%s s=%s", g.handles[r.Intn(len(g.handles))], []string{"query;json", "set/" + hk("k") + "/" + valField("t") + ";push;query", "query;get/" + hk("chatid")}[r.Intn(3)]))
+			}
+			continue
+		}
 		switch x := r.Intn(100); {
 		case x < 22: // front-local request
 			f, n := g.pickConn(true)
